@@ -107,8 +107,8 @@ def _safe_timezone(
         if hasattr(obj, "key"):
             obj = obj.key
         # pytz
-        elif hasattr(obj, "localize"):
-            obj = obj.zone  # type: ignore[attr-defined]
+        elif hasattr(obj, "localize") and getattr(obj, "zone", None):
+            obj = obj.zone
         elif obj.tzname(None) == "UTC":
             return UTC
         else:
